@@ -52,7 +52,8 @@ BEAM_THEORIES = ["EB", "TIMO"]
 BEAM_MESHES = {1: ["two", "strip3", "gmsh", "twosec"], 2: ["two", "strip3", "gmsh", "twosec", "frame"],
                3: ["two", "strip3", "gmsh", "twosec", "frame"]}
 # "negx0": the member lies ON the x axis and points towards -x (no offset: the mesh stays embedded in one dimension, which the library keys on)
-BEAM_DIRS = {1: ["x", "negx0"], 2: ["x", "y", "negx", "incl", "negx0"], 3: ["x", "y", "z", "incl", "negx0"]}
+# "incl_far": an inclined member far from the origin (coordinates ~ 3e4: a frame written in millimetres)
+BEAM_DIRS = {1: ["x", "negx0"], 2: ["x", "y", "negx", "incl", "negx0", "incl_far"], 3: ["x", "y", "z", "incl", "negx0", "incl_far"]}
 SECTIONS = {"A": (0.6, 0.8), "B": (0.9, 0.5)}  # stocky on purpose: keeps EI/L^3 within 1e-6 of EA/L (conditioning)
 NVERT = {"SEG": 2, "TRI": 3, "QUAD": 4, "TETRA": 4, "HEXA": 8, "PRISM": 6}
 
@@ -120,7 +121,7 @@ def describe(tier, seed):
         "alphabet": {"simulations": len(CONT_SIMS) + 2 * len(BEAM_DIMS), "sim_x_elemType_pairs": n_c + 24,
                      "meshes_continuum": len(CONT_MESHES) + (4 if tier == "thorough" else 0), "meshes_beam": 5,
                      "materials_elastic2d": 6, "materials_elastic3d": 5, "materials_thermal": 2, "thickness": 2, "density": 3,
-                     "beam_directions_1d": 2, "beam_directions_2d": 5 + (2 if tier == "thorough" else 0), "beam_directions_3d": 5},
+                     "beam_directions_1d": 2, "beam_directions_2d": 6 + (2 if tier == "thorough" else 0), "beam_directions_3d": 6},
         "assumptions": [
             "meshes are connected, without orphan nodes, >= 2 elements (verified per case; otherwise skipped and counted)",
             "materials are SPD with condition number <= ~50; zero-energy threshold 1e-10*lmax, cases with an eigenvalue in "
@@ -661,6 +662,9 @@ def _beam_motion(d, letter):
         return np.array([[-1, 0, 0], [0, -1, 0], [0, 0, 1.0]]), off
     if letter == "z":
         return np.array([[0, 0, -1], [0, 1, 0], [1, 0, 0.0]]), off
+    if letter == "incl_far":
+        Qf, _ = _beam_motion(d, "incl")
+        return Qf, np.array([3.0e4, 2.0e4, 0.0 if d == 2 else 1.0e4])
     r = rng("c02beamdir", d, letter)
     if d == 2:
         a = np.deg2rad(r.uniform(20, 70)) if letter == "incl" else np.deg2rad(r.uniform(110, 160))
